@@ -77,6 +77,9 @@ def run(ctx):
     div += classify_mismatches(ctx, dl, "deadlock")
     cc = goenv.run_harness(ctx, PKG, "^TestVerifC15CloseUnderContention$", timeout=300)
     div += classify_mismatches(ctx, cc, "close-contention")
+    # (2c) the last subscriber of an emitter-less type closes while another Subscribe is in flight
+    lc = goenv.run_harness(ctx, PKG, "^TestVerifC15SubscribeVsLastClose$", timeout=300)
+    div += classify_mismatches(ctx, lc, "subscribe-vs-last-close")
     if design_deadlock and not dl["mismatches"]:
         ctx.notes.append("instance D deadlocks in the model but the real bus did not reproduce it in 5 gated attempts")
 
